@@ -13,7 +13,7 @@ def optKey? (s : String) : Option (Option Key) :=
   if s == "~" then some none else (hexToList? s).map some
 
 def posStr (b : Bool) (c : Option (Key × Val)) : String :=
-  (if b then "1:" else "0:") ++ (match c with | some x => kvStr x | none => "~")
+  if b then "1:" ++ (match c with | some x => kvStr x | none => "~") else "0:~"
 
 structure TState where
   isMut : Bool
